@@ -2,7 +2,7 @@
 # Confirm a sub-agent's seeded change in its scratch worktree: demo passes clean, fails with patch,
 # existing suite passes with patch. usage: tools/confirm_seed.sh <ID> <k>
 set -u
-ID=$1; K=$2; WT=${3:-/tmp/wt-$ID}
+ID=$1; K=$2; WT=${3:-/tmp/wt3-$ID}
 cd $WT || exit 2
 git checkout -q -- . ; rm -f tests/demo_m*.rs
 cp out/demo_m$K.rs tests/demo_m$K.rs
